@@ -346,4 +346,23 @@ def reduce (xs : List Val) (f : Cb4) (args : List Val) : Res :=
     | none => .crash
     | some a => .ok ⟨reduceLoop f xs 1 a (xs.drop 1), xs⟩
 
+/-! ## dispatch -/
+
+/-- one method call as `ArrayValue.GetMethod` / `GetProperty` dispatches it -/
+inductive Call where
+  | push (args : List Val) | pop | shift | unshift (args : List Val)
+  | slice (args : List Val) | splice (args : List Val) | concat (args : List Val) | join (args : List Val)
+  | reverse | sort | indexOf (args : List Val) | includes (args : List Val)
+  | find (p : Pred) | findIndex (p : Pred) | forEach | map (f : Cb) | filter (p : Pred)
+  | reduce (f : Cb4) (args : List Val) | every (p : Pred) | someP (p : Pred)
+  | flat (args : List Val) | flatMap (f : Cb) | length
+
+def run (xs : List Val) : Call → Res
+  | .push a => push xs a | .pop => pop xs | .shift => shift xs | .unshift a => unshift xs a
+  | .slice a => slice xs a | .splice a => splice xs a | .concat a => concat xs a | .join a => join xs a
+  | .reverse => reverse xs | .sort => sort xs | .indexOf a => indexOf xs a | .includes a => includes xs a
+  | .find p => find xs p | .findIndex p => findIndex xs p | .forEach => (forEach xs).1 | .map f => map xs f
+  | .filter p => filter xs p | .reduce f a => reduce xs f a | .every p => every xs p | .someP p => someP xs p
+  | .flat a => flat xs a | .flatMap f => flatMap xs f | .length => length xs
+
 end Model.Meth
